@@ -243,6 +243,12 @@ impl<'a> Sim<'a> {
         let svc: Svc = Service::new(n.config.clone(), n.db.clone().into(), n.storage.clone(), policies, n.signer.clone(), rng, ann, Emitter::default());
         n.svc = Some(svc);
         n.gt.new_generation();
+        {
+            // hook H4: the counter and the cached inventory before `initialize`
+            let (inv, last) = n.svc.as_ref().unwrap().verif_timestamps();
+            n.gt.cached_inv = Some(*inv);
+            n.gt.last_ts = *last;
+        }
         let gen = n.gen;
         self.res.trace.log("start", format!("t={} n{i} start gen={gen}", self.now - T0));
         let r = crate::kit::json::catch(|| self.nodes[i].svc.as_mut().unwrap().initialize(LocalTime::from_millis(now as u128)));
